@@ -10,7 +10,13 @@ RULE = ("one call on the real function vs the exhaustive bounds hull (BC-documen
 
 def main(tier, seed):
     names = O.BC_TYPES + ["affine_eq"]
-    rep = callfamily.run("C14", tier, seed, names, "exploration", RULE)
+    from framework.props import bigrun
+
+    rep = callfamily.run("C14", tier, seed, names, "exploration", RULE,
+                         extra_jobs=bigrun.interp_jobs("C14", tier, seed + 9, ["budget", "calls"],
+                                                       monitor_opts={"calls": {"hull_limit": 3000}}),
+                         extra_aggregate=bigrun.aggregate)
+    rep.need("calls.distinct_judged", 1000, "in-engine executions on large models judged against the exact hull")
     return rep.finish()
 
 
